@@ -1097,6 +1097,15 @@ impl<T: Transport, Env: UtpEnvironment> VirtualSocket<T, Env> {
                 self.restart_remote_inactivity_timer();
                 self.state = Established;
             }
+            // Like below: a FIN is only honoured in sequence, otherwise we would ACK data we never got.
+            (SynAckSent { .. }, ST_FIN) if hdr.seq_nr != self.last_consumed_remote_seq_nr + 1 => {
+                trace!(
+                    hdr=%hdr.short_repr(),
+                    "dropping FIN, expected seq_nr to be {}",
+                    self.last_consumed_remote_seq_nr + 1
+                );
+                return Ok(Default::default());
+            }
             (SynAckSent { .. }, ST_FIN) => {
                 trace!("state: syn-ack-sent -> closed");
                 self.state = Closed;
